@@ -62,8 +62,8 @@ Definition entry (sel : Z) (toks : list Z) : list Z :=
          | Some (ippvs, plr, ippl, dra, t, p) =>
            let tr := tracked_of t in let ps := plsup_of t in
            let up := k8s_pod_requests ps (opts_of ippvs plr ippl dra) p in
-           tag 1 ++ eRes (vc_pod_request tr ps ippvs plr p) ++
-           tag 2 ++ eRes (vc_pod_request_noinit tr ps ippvs plr p) ++
+           tag 1 ++ eRes (vc_pod_request tr ps ippvs plr ippl dra p) ++
+           tag 2 ++ eRes (vc_pod_request_noinit tr ps ippvs plr ippl p) ++
            tag 3 ++ eRl up ++
            tag 4 ++ eRes (new_resource tr up)
          | None => bad_input end
